@@ -204,6 +204,18 @@ Notation "'dor' x <- e1 ; e2" := (rbind e1 (fun x => e2))
 Definition lift {A} (x : outcome A) : res A :=
   match x with Done a => ROk a | Panic => RPanic | OutOfFuel => RFuel end.
 
+(* Functions that receive `errs: &mut Vec<LexBuildError>`: the list survives a failing `?`,
+   so both results carry it. *)
+Inductive tres (A : Type) : Type :=
+| TOk (a : A) (errs : list err) | TErr (errs : list err) (e : err) | TPanic | TFuel.
+Arguments TOk {A} a errs. Arguments TErr {A} errs e. Arguments TPanic {A}. Arguments TFuel {A}.
+
+(* call of a function that does not touch errs, from one that holds [errs] *)
+Definition lbind {A B} (errs : list err) (x : res A) (f : A -> tres B) : tres B :=
+  match x with ROk a => f a | RErr e => TErr errs e | RPanic => TPanic | RFuel => TFuel end.
+Notation "'dol' x <- e1 'holding' errs ; e2" := (lbind errs e1 (fun x => e2))
+  (at level 200, x pattern, e1 at level 100, errs at level 9, e2 at level 200, right associativity).
+
 (* mk_error *)
 Definition mk_error (k : err_kind) (off : nat) : err := {| e_kind := k; e_spans := [(off, off)] |}.
 
@@ -267,27 +279,35 @@ Definition unescape_step (re unescaped : text) (last_pos i : nat) (s : text) (j 
     Done (unescaped ++ a ++ b, last_pos').
 
 (* the inner loop (look for the next backslash) followed by the next round of 'outer *)
-Fixpoint unescape_rest (re it : text) (off : nat) (unescaped : text) (last_pos : nat) (pe : bool) : outcome text :=
+(* [fixd = true]: proposed repair — a lone final backslash no longer loses the text since the
+   last rewritten escape (the trailing copy is also done when the cursor runs out) *)
+Fixpoint unescape_rest (fixd : bool) (re it : text) (off : nat) (unescaped : text) (last_pos : nat) (pe : bool)
+  : outcome text :=
   match it with
   | [] => do tl <- slice_from re last_pos; Done (unescaped ++ tl)
   | c :: it1 =>
       if (c =? c_bsl)%N then
         match it1 with
-        | [] => Done unescaped          (* cursor = None; `continue 'outer` leaves the while-let *)
+        | [] =>                          (* cursor = None; `continue 'outer` leaves the while-let *)
+            if fixd then do tl <- slice_from re last_pos; Done (unescaped ++ tl)
+            else Done unescaped
         | c2 :: it2 =>
             do r <- unescape_step re unescaped last_pos off (c2 :: it2) (off + 1) c2 pe;
-            unescape_rest re it2 (off + 1 + len_utf8 c2) (fst r) (snd r) pe
+            unescape_rest fixd re it2 (off + 1 + len_utf8 c2) (fst r) (snd r) pe
         end
-      else unescape_rest re it1 (off + len_utf8 c) unescaped last_pos pe
+      else unescape_rest fixd re it1 (off + len_utf8 c) unescaped last_pos pe
   end.
 
-Definition unescape (re : text) (pe : bool) : outcome text :=
+Definition unescape_gen (fixd : bool) (re : text) (pe : bool) : outcome text :=
   match unescape_first re 0 with
   | None => Done re
   | Some (i, s, j, c2, it2, off2) =>
       do r <- unescape_step re [] 0 i s j c2 pe;
-      unescape_rest re it2 off2 (fst r) (snd r) pe
+      unescape_rest fixd re it2 off2 (fst r) (snd r) pe
   end.
+
+(* today's code *)
+Definition unescape := unescape_gen false.
 
 (* parser.rs:688 trim_end_unescaped *)
 Definition count_trailing_bsl (s : text) : nat := length (take_while (N.eqb c_bsl) (rev s)).
@@ -303,12 +323,24 @@ Definition trim_end_unescaped (s : text) : outcome text :=
     end
   else Done trimmed.
 
+(* ---- the proposed repairs (all false = the code as it is today) ------------- *)
+Record fixes := {
+  fix_header : bool;         (* parse the whole text starting at the header end instead of slicing it off *)
+  fix_target_span : bool;    (* name_span computed from where the name is, also behind a <target> *)
+  fix_prefix_unescape : bool;(* unescape also the regex of a rule with a <A,B> prefix *)
+  fix_dangling : bool        (* unescape: trailing copy also when the scan ends on a lone backslash *)
+}.
+Definition today : fixes :=
+  {| fix_header := false; fix_target_span := false; fix_prefix_unescape := false; fix_dangling := false |}.
+Definition repaired : fixes :=
+  {| fix_header := true; fix_target_span := true; fix_prefix_unescape := true; fix_dangling := true |}.
+
 (* ---- the parser -------------------------------------------------------------- *)
 Section Parser.
   Variable src : text.              (* self.src *)
   Variable awc pe : bool.           (* allow_wholeline_comments, posix_escapes *)
   Variable re_bad : list nat.       (* rule lines whose regex does not compile *)
-  Variable fix_target : bool.       (* proposed repair of name_span next to a target state *)
+  Variable fx : fixes.
 
   Definition src_len : nat := byte_len src.
 
@@ -347,6 +379,7 @@ Section Parser.
     | _ => false
     end.
 
+  (* validate_start_state: fails (InvalidStartStateName) before it touches errs *)
   Definition validate_start_state (st : pstate) (sp : span) (name : text) (errs : list err)
     : res (bool * list err) :=
     if negb (is_start_state_name name) then RErr (mk_error InvalidStartStateName (fst sp)) else
@@ -357,87 +390,96 @@ Section Parser.
     | None => ROk (true, errs)
     end.
 
+  Definition push_state (st : pstate) (s : start_state) : pstate :=
+    {| rules := rules st; start_states := start_states st ++ [s] |}.
+  Definition push_rule (st : pstate) (r : rule) : pstate :=
+    {| rules := rules st ++ [r]; start_states := start_states st |}.
+
   Fixpoint declare_loop (exclusive : bool) (names : list (text * span)) (st : pstate) (errs : list err)
-    : res (pstate * list err) :=
+    : tres pstate :=
     match names with
-    | [] => ROk (st, errs)
+    | [] => TOk st errs
     | (name, sp) :: rest =>
         let id := length (start_states st) in
-        dor v <- validate_start_state st sp name errs;
-        let '(ok, errs') := v in
-        let st' := if ok
-                   then {| rules := rules st;
-                           start_states := start_states st ++
-                             [{| ss_id := id; ss_name := name; ss_span := sp; ss_exclusive := exclusive |}] |}
+        dol v <- validate_start_state st sp name errs holding errs;
+        let st' := if fst v
+                   then push_state st {| ss_id := id; ss_name := name; ss_span := sp; ss_exclusive := exclusive |}
                    else st in
-        declare_loop exclusive rest st' errs'
+        declare_loop exclusive rest st' (snd v)
     end.
 
-  (* declare_start_states: the pointer differences `name.as_ptr() - src.as_ptr()` are index arithmetic *)
+  (* the names of a declaration with their spans; the pointer differences
+     `name.as_ptr() - src.as_ptr()` are index arithmetic *)
+  Definition declared_names (base : nat) (params : text) : list (text * span) :=
+    map (fun p => (snd p, (base + fst p, base + fst p + byte_len (snd p)))) (split is_ws params).
+
+  (* declare_start_states *)
   Definition declare_start_states (exclusive : bool) (i declaration_len line_len : nat)
-             (st : pstate) (errs : list err) : res (nat * pstate * list err) :=
+             (st : pstate) (errs : list err) : tres (nat * pstate) :=
     let line_end := i + line_len in
-    dor raw <- lift (slice src (i + declaration_len) line_end);
-    let lead := take_while is_ws raw in
+    dol raw <- lift (slice src (i + declaration_len) line_end) holding errs;
     let declaration_parameters := trim is_ws raw in
     if match declaration_parameters with [] => true | _ => false end
-    then RErr (mk_error UnknownDeclaration i) else
-    let base := i + declaration_len + byte_len lead in
-    let names := map (fun p => (snd p, (base + fst p, base + fst p + byte_len (snd p))))
-                     (split is_ws declaration_parameters) in
+    then TErr errs (mk_error UnknownDeclaration i) else
+    let base := i + declaration_len + byte_len (take_while is_ws raw) in
+    let names := declared_names base declaration_parameters in
     let i' := match rev names with (_, (_, e)) :: _ => e | [] => i end in
-    dor r <- declare_loop exclusive names st errs;
-    dor k <- lift (parse_ws i');
-    ROk (k, fst r, snd r).
+    match declare_loop exclusive names st errs with
+    | TOk st' errs' => dol k <- lift (parse_ws i') holding errs'; TOk (k, st') errs'
+    | TErr errs' e => TErr errs' e
+    | TPanic => TPanic | TFuel => TFuel
+    end.
 
-  Definition parse_declaration (i : nat) (st : pstate) (errs : list err) : res (nat * pstate * list err) :=
-    dor line_len <- lift (line_len_at i);
-    dor line0 <- lift (slice src i (i + line_len));
+  Definition parse_declaration (i : nat) (st : pstate) (errs : list err) : tres (nat * pstate) :=
+    dol line_len <- lift (line_len_at i) holding errs;
+    dol line0 <- lift (slice src i (i + line_len)) holding errs;
     let line := trim_end is_ws line0 in
     let declaration_len := match find is_ws line with Some k => k | None => line_len end in
-    dor decl0 <- lift (slice src i (i + declaration_len));
+    dol decl0 <- lift (slice src i (i + declaration_len)) holding errs;
     let declaration := trim_end is_ws decl0 in
     if is_declaration 115 83 declaration then declare_start_states false i declaration_len line_len st errs
     else if is_declaration 120 88 declaration then declare_start_states true i declaration_len line_len st errs
-    else RErr (mk_error UnknownDeclaration i).
+    else TErr errs (mk_error UnknownDeclaration i).
 
   Fixpoint parse_declarations_loop (fuel : nat) (i : nat) (st : pstate) (errs : list err)
-    : res (nat * pstate * list err) :=
+    : tres (nat * pstate) :=
     match fuel with
-    | 0 => RFuel
+    | 0 => TFuel
     | S fuel' =>
-        dor i <- lift (parse_ws i);
-        dor cmt <- lift (if awc then lookahead_is [c_slash; c_slash] i else Done None);
+        dol i <- lift (parse_ws i) holding errs;
+        dol cmt <- lift (if awc then lookahead_is [c_slash; c_slash] i else Done None) holding errs;
         match cmt with
         | Some _ =>
-            dor rest <- lift (slice_from src i);
+            dol rest <- lift (slice_from src i) holding errs;
             let i' := match find is_line_sep rest with Some k => k + i | None => src_len end in
             parse_declarations_loop fuel' i' st errs
         | None =>
-            if i =? src_len then RErr (mk_error PrematureEnd i) else
-            dor sep <- lift (lookahead_is [c_percent; c_percent] i);
+            if i =? src_len then TErr errs (mk_error PrematureEnd i) else
+            dol sep <- lift (lookahead_is [c_percent; c_percent] i) holding errs;
             match sep with
-            | Some j => dor k <- lift (parse_spaces j); ROk (k, st, errs)
+            | Some j => dol k <- lift (parse_spaces j) holding errs; TOk (k, st) errs
             | None =>
-                dor r <- parse_declaration i st errs;
-                let '(i', st', errs') := r in
-                parse_declarations_loop fuel' i' st' errs'
+                match parse_declaration i st errs with
+                | TOk (i', st') errs' => parse_declarations_loop fuel' i' st' errs'
+                | TErr errs' e => TErr errs' e
+                | TPanic => TPanic | TFuel => TFuel
+                end
             end
         end
     end.
 
-  Definition parse_declarations (fuel : nat) (i : nat) (st : pstate) (errs : list err) :=
-    dor i <- lift (parse_ws i);
+  Definition parse_declarations (fuel : nat) (i : nat) (st : pstate) (errs : list err) : tres (nat * pstate) :=
+    dol i <- lift (parse_ws i) holding errs;
     parse_declarations_loop fuel i st errs.
 
   (* parse_start_state_ops *)
   Definition parse_start_state_ops (s : text) : outcome (text * op) :=
-    let '(left_delta, operation) :=
+    let d :=
       match s with
       | c :: _ => if (c =? c_plus)%N then (1, Push) else if (c =? c_minus)%N then (1, Pop) else (0, ReplaceStack)
       | [] => (0, ReplaceStack)                        (* unwrap_or_default: '\0' *)
       end in
-    do r <- slice_from s left_delta; Done (r, operation).
+    do r <- slice_from s (fst d); Done (r, snd d).
 
   Fixpoint states_by_name (st : pstate) (off : nat) (names : list text) : res (list nat) :=
     match names with
@@ -451,7 +493,7 @@ Section Parser.
   (* parse_start_states *)
   Definition parse_start_states (st : pstate) (off : nat) (re_str : text) : res (list nat * text) :=
     if negb (starts_with [c_lt] re_str) then
-      dor u <- lift (unescape re_str pe); ROk ([], u)
+      dor u <- lift (unescape_gen (fix_dangling fx) re_str pe); ROk ([], u)
     else
       match find (N.eqb c_gt) re_str with
       | None => RErr (mk_error InvalidStartState off)
@@ -460,7 +502,9 @@ Section Parser.
           let names := map (fun p => trim is_ws (snd p)) (split (N.eqb c_comma) inner) in
           dor ids <- states_by_name st off names;
           dor rest <- lift (slice_from re_str (j + 1));
-          ROk (ids, rest)
+          if fix_prefix_unescape fx
+          then dor u <- lift (unescape_gen (fix_dangling fx) rest pe); ROk (ids, u)
+          else ROk (ids, rest)
       end.
 
   (* the duplicate search of parse_rule: rules.iter().any(..) stops at the first rule of that name *)
@@ -477,80 +521,92 @@ Section Parser.
   Definition is_skip_name (n : text) : bool :=
     text_eqb n [c_semi] || text_eqb n [c_dquote; c_dquote] || text_eqb n [c_squote; c_squote].
 
+  Definition is_quoted (n : text) : bool :=
+    (starts_with [c_squote] n && ends_with_char c_squote n)
+    || (starts_with [c_dquote] n && ends_with_char c_dquote n).
+
+  (* the part of parse_rule after the last horizontal space: optional <target>, then the name.
+     Returns target_state, orig_name and the offset of orig_name in the line. *)
+  Definition parse_target (i : nat) (st : pstate) (line : text) (rspace : nat)
+    : res (option (nat * op) * text * nat) :=
+    dor tail <- lift (slice_from line (rspace + 1));
+    if starts_with [c_lt] tail then
+      match find (N.eqb c_gt) tail with
+      | Some l =>
+          dor inner <- lift (slice line (rspace + 2) (rspace + 1 + l));
+          dor so <- lift (parse_start_state_ops inner);
+          dor state <- get_start_state_by_name st (i + rspace + 1) (fst so);
+          dor on <- lift (slice_from line (rspace + 1 + l + 1));
+          ROk (Some (ss_id state, snd so), on, rspace + 1 + l + 1)
+      | None => RErr (mk_error InvalidStartState (rspace + i))
+      end
+    else ROk (None, tail, rspace + 1).
+
+  (* name, name_span of a non-skip rule *)
+  Definition parse_name (i rspace name_off : nat) (orig_name : text) : res (text * span) :=
+    if (byte_len orig_name <=? 2) || negb (is_quoted orig_name)
+    then RErr (mk_error InvalidName (i + rspace + 1))
+    else
+      dor name <- lift (slice orig_name 1 (byte_len orig_name - 1));
+      ROk (name,
+           if fix_target_span fx
+           then (i + name_off + 1, i + name_off + byte_len orig_name - 1)
+           else (i + rspace + 2, i + rspace + byte_len orig_name)).
+
   (* parse_rule *)
-  Definition parse_rule (i : nat) (st : pstate) (errs : list err) : res (nat * pstate * list err) :=
-    dor line_len <- lift (line_len_at i);
-    dor line0 <- lift (slice src i (i + line_len));
+  Definition parse_rule (i : nat) (st : pstate) (errs : list err) : tres (nat * pstate) :=
+    dol line_len <- lift (line_len_at i) holding errs;
+    dol line0 <- lift (slice src i (i + line_len)) holding errs;
     let line := trim_end is_ws line0 in
     match rfind is_space_sep line with
-    | None => RErr (mk_error MissingSpace i)
+    | None => TErr errs (mk_error MissingSpace i)
     | Some rspace =>
-        dor tail <- lift (slice_from line (rspace + 1));
-        dor tg <-
-          (if starts_with [c_lt] tail then
-             match find (N.eqb c_gt) tail with
-             | Some l =>
-                 dor inner <- lift (slice line (rspace + 2) (rspace + 1 + l));
-                 dor so <- lift (parse_start_state_ops inner);
-                 dor state <- get_start_state_by_name st (i + rspace + 1) (fst so);
-                 dor on <- lift (slice_from line (rspace + 1 + l + 1));
-                 ROk (Some (ss_id state, snd so), on, rspace + 1 + l + 1)
-             | None => RErr (mk_error InvalidStartState (rspace + i))
-             end
-           else ROk (None, tail, rspace + 1)) : res (option (nat * op) * text * nat);
+        dol tg <- parse_target i st line rspace holding errs;
         let '(target_state, orig_name, name_off) := tg in
-        dor nm <-
-          (if is_skip_name orig_name then
-             let pos := i + rspace + 1 in ROk (None, (pos, pos), false, errs)
-           else if (byte_len orig_name <=? 2)
-                   || negb ((starts_with [c_squote] orig_name && ends_with_char c_squote orig_name)
-                            || (starts_with [c_dquote] orig_name && ends_with_char c_dquote orig_name))
-           then RErr (mk_error InvalidName (i + rspace + 1))
-           else
-             dor name <- lift (slice orig_name 1 (byte_len orig_name - 1));
-             let name_span :=
-               if fix_target then (i + name_off + 1, i + name_off + byte_len orig_name - 1)
-               else (i + rspace + 2, i + rspace + byte_len orig_name) in
-             match find_dupe (rules st) name with
-             | Some r =>
-                 dor errs' <- lift (add_duplicate_occurrence errs DuplicateName (r_name_span r) name_span);
-                 ROk (Some name, name_span, true, errs')
-             | None => ROk (Some name, name_span, false, errs)
-             end) : res (option text * span * bool * list err);
-        let '(name, name_span, dupe, errs') := nm in
-        if dupe then ROk (i + line_len, st, errs') else
-        dor re0 <- lift (slice_to line rspace);
-        dor re1 <- lift (trim_end_unescaped re0);
-        dor ps <- parse_start_states st i re1;
-        if existsb (Nat.eqb i) re_bad then RErr (mk_error RegexError i) else
-        let r := {| r_name := name; r_name_span := name_span; r_re_str := snd ps;
-                    r_start_states := fst ps; r_target := target_state |} in
-        ROk (i + line_len, {| rules := rules st ++ [r]; start_states := start_states st |}, errs')
+        dol nm <- (if is_skip_name orig_name
+                   then ROk (None, (i + rspace + 1, i + rspace + 1))
+                   else dor ns <- parse_name i rspace name_off orig_name; ROk (Some (fst ns), snd ns))
+               holding errs;
+        let '(name, name_span) := nm in
+        match (match name with Some n => find_dupe (rules st) n | None => None end) with
+        | Some r =>
+            dol errs' <- lift (add_duplicate_occurrence errs DuplicateName (r_name_span r) name_span) holding errs;
+            TOk (i + line_len, st) errs'
+        | None =>
+            dol re0 <- lift (slice_to line rspace) holding errs;
+            dol re1 <- lift (trim_end_unescaped re0) holding errs;
+            dol ps <- parse_start_states st i re1 holding errs;
+            if existsb (Nat.eqb i) re_bad then TErr errs (mk_error RegexError i) else
+            TOk (i + line_len,
+                 push_rule st {| r_name := name; r_name_span := name_span; r_re_str := snd ps;
+                                 r_start_states := fst ps; r_target := target_state |}) errs
+        end
     end.
 
-  Fixpoint parse_rules (fuel : nat) (i : nat) (st : pstate) (errs : list err)
-    : res (nat * pstate * list err) :=
+  Fixpoint parse_rules (fuel : nat) (i : nat) (st : pstate) (errs : list err) : tres (nat * pstate) :=
     match fuel with
-    | 0 => RFuel
+    | 0 => TFuel
     | S fuel' =>
-        dor i <- lift (parse_nl i);
-        dor line_len <- lift (line_len_at i);
-        dor cmt <- lift (if awc then lookahead_is [c_slash; c_slash] i else Done None);
+        dol i <- lift (parse_nl i) holding errs;
+        dol line_len <- lift (line_len_at i) holding errs;
+        dol cmt <- lift (if awc then lookahead_is [c_slash; c_slash] i else Done None) holding errs;
         match cmt with
         | Some _ => parse_rules fuel' (i + line_len) st errs
         | None =>
-            dor j <- lift (parse_ws i);
+            dol j <- lift (parse_ws i) holding errs;
             if negb (j =? i) then
               parse_rules fuel' (i + line_len) st
                 (errs ++ [{| e_kind := VerbatimNotSupported; e_spans := [(i, i + line_len)] |}])
-            else if i =? src_len then ROk (i, st, errs) else
-            dor sep <- lift (lookahead_is [c_percent; c_percent] i);
+            else if i =? src_len then TOk (i, st) errs else
+            dol sep <- lift (lookahead_is [c_percent; c_percent] i) holding errs;
             match sep with
-            | Some _ => ROk (i, st, errs)
+            | Some _ => TOk (i, st) errs
             | None =>
-                dor r <- parse_rule i st errs;
-                let '(i', st', errs') := r in
-                parse_rules fuel' i' st' errs'
+                match parse_rule i st errs with
+                | TOk (i', st') errs' => parse_rules fuel' i' st' errs'
+                | TErr errs' e => TErr errs' e
+                | TPanic => TPanic | TFuel => TFuel
+                end
             end
         end
     end.
@@ -568,13 +624,13 @@ Section Parser.
   (* parse; [start] is 0 in today's code *)
   Definition parse (fuel : nat) (start : nat) : outcome parsed :=
     match parse_declarations fuel start initial_state [] with
-    | RPanic => Panic | RFuel => OutOfFuel
-    | RErr e => Done (PErrs [e])
-    | ROk (i, st, errs) =>
+    | TPanic => Panic | TFuel => OutOfFuel
+    | TErr errs e => Done (PErrs (errs ++ [e]))
+    | TOk (i, st) errs =>
         match parse_rules fuel i st errs with
-        | RPanic => Panic | RFuel => OutOfFuel
-        | RErr e => Done (PErrs (errs ++ [e]))
-        | ROk (i, st, errs) =>
+        | TPanic => Panic | TFuel => OutOfFuel
+        | TErr errs e => Done (PErrs (errs ++ [e]))
+        | TOk (i, st) errs =>
             do la <- lookahead_is [c_percent; c_percent] i;
             match la with
             | Some j =>
@@ -589,17 +645,13 @@ Section Parser.
 End Parser.
 
 (* ---- lexer.rs from_str / new_with_options: the header is parsed, then the
-   source is sliced at its end.  [fix_header = true] is the proposed repair:
-   the parser keeps the whole text and starts at [pos]. *)
-Record fixes := { fix_header : bool; fix_target_span : bool }.
-Definition today : fixes := {| fix_header := false; fix_target_span := false |}.
-Definition repaired : fixes := {| fix_header := true; fix_target_span := true |}.
-
+   source is sliced at its end.  With [fix_header] the parser keeps the whole
+   text and starts at [pos]. *)
 Definition fuel_for (src : text) : nat := byte_len src + 2.
 
 Definition lex_from_str (fx : fixes) (src : text) (pos : nat) (awc pe : bool) (re_bad : list nat)
   : outcome parsed :=
   do s <- slice_from src pos;                                (* s[pos..] *)
   if fix_header fx
-  then parse src awc pe re_bad (fix_target_span fx) (fuel_for src) pos
-  else parse s awc pe re_bad (fix_target_span fx) (fuel_for s) 0.
+  then parse src awc pe re_bad fx (fuel_for src) pos
+  else parse s awc pe re_bad fx (fuel_for s) 0.
